@@ -26,6 +26,18 @@ class _HeterogenousEnsembleForecaster(_SktimeForecaster, _HeterogenousMetaEstima
         self.n_jobs = n_jobs
         super(_HeterogenousEnsembleForecaster, self).__init__()
 
+    def _set_cutoff(self, cutoff):
+        """Set the cutoff of the composite and of its fitted component forecasters.
+
+        The components make the forecasts, so their cutoffs have to follow the
+        composite's, in particular when it is reset or restored after
+        `update_predict`.
+        """
+        super(_HeterogenousEnsembleForecaster, self)._set_cutoff(cutoff)
+        for forecaster in self.forecasters_ or []:
+            if hasattr(forecaster, "_set_cutoff"):
+                forecaster._set_cutoff(cutoff)
+
     def _check_forecasters(self):
         if (
             self.forecasters is None
